@@ -120,7 +120,7 @@ type c02Pair struct {
 }
 
 func runC02(c *core.Ctx) {
-	K := c.Pick(4, 12)
+	K := c.Pick(4, 24)
 	setup := c.Rng("setup")
 	rk := RSAKeys()
 
@@ -518,7 +518,7 @@ func c02Lifecycle(c *core.Ctx) {
 				}}
 		},
 	}
-	n := c.Pick(40, 1200)
+	n := c.Pick(40, 6000)
 	for _, name := range []string{"type1", "type2", "type3", "type5"} {
 		mk := factories[name]
 		for i := 0; i < n; i++ {
